@@ -409,6 +409,27 @@ type mref struct {
 	used     map[int]string
 	reserved map[string]int
 	squat    map[int]bool
+	real     string // canonical dump of the real manager's own tables after the last operation
+}
+
+// realKey dumps the private tables of the real manager (ports relative to the instance's base): two histories are
+// merged by the search only if the implementation, not just the reference, is in the same state.
+func realKey(pm *ports.Manager) string {
+	var out []string
+	for _, tbl := range []string{"usedPorts", "reservedPorts"} {
+		peek.Each(peek.F(pm, tbl), func(k string, _, v reflectValue) {
+			if n, err := strconv.Atoi(k); err == nil {
+				k = strconv.Itoa(n % 10)
+			}
+			out = append(out, fmt.Sprintf("%s[%s]=%s/%d/%v", tbl, k, peek.Walk(v, "ProxyName").String(), peek.Walk(v, "Port").Int()%10, peek.Walk(v, "Closed").Bool()))
+		})
+	}
+	for _, k := range peek.MapKeys(peek.F(pm, "freePorts")) {
+		n, _ := strconv.Atoi(k)
+		out = append(out, fmt.Sprintf("free[%d]", n%10))
+	}
+	sort.Strings(out)
+	return strings.Join(out, " ")
 }
 
 func (r *mref) key() string {
@@ -521,6 +542,7 @@ func applyOps(x *vs.Exec, ops []mop, base int) *mref {
 	for p := range ref.squat {
 		w.Squat("tcp", p, false)
 	}
+	ref.real = realKey(pm)
 	return ref
 }
 
@@ -542,9 +564,15 @@ func scManagerBFS(depth int) func(x *vs.Exec) {
 		frontier := [][]mop{nil}
 		states, trans := 0, 0
 		base := 21000
-		for d := 1; d <= depth; d++ {
+		maxTrans := 12000 * depth / 7 // about three times what the unchanged tree needs; a cap, reported as such
+		capped := false
+		for d := 1; d <= depth && !capped; d++ {
 			var next [][]mop
 			for _, h := range frontier {
+				if trans > maxTrans || len(x.Fails) >= 10 {
+					capped = true // enough: either the budget or ten reported deviations
+					break
+				}
 				for _, a := range alphabet {
 					nh := append(append([]mop(nil), h...), a)
 					// every instance gets its own port range so that instances cannot interfere
@@ -562,6 +590,9 @@ func scManagerBFS(depth int) func(x *vs.Exec) {
 				}
 			}
 			frontier = next
+		}
+		if capped {
+			vs.Observe("manager BFS capped after %d transitions", trans)
 		}
 		vs.Observe("manager BFS depth=%d states=%d transitions=%d", depth, states, trans)
 	}
@@ -584,7 +615,7 @@ func (r *mref) key2() string {
 	sort.Strings(u)
 	sort.Strings(s)
 	sort.Strings(res)
-	return fmt.Sprint(u, res, s)
+	return fmt.Sprint(u, res, s, " | ", r.real)
 }
 
 func scenarios() {
@@ -602,6 +633,7 @@ func scenarios() {
 		case strings.HasPrefix(name, "mgr/bfs"):
 			d, _ := strconv.Atoi(strings.TrimPrefix(name, "mgr/bfs"))
 			s.Body = scManagerBFS(d)
+			s.Watchdog = 15 * time.Minute // the whole search runs inside one execution
 			s.End = func(x *vs.Exec) string { return strings.Join(x.Obs, "\n") }
 			s.MaxSteps = 50_000_000
 		case strings.HasPrefix(name, "hist/"):
@@ -783,8 +815,14 @@ outer:
 	}
 	c.Note("history_bfs", map[string]any{"max_depth": depth, "distinct_states": states, "histories_run": trans, "alphabet": alphabet})
 
-	// (a) manager-level BFS (one execution; the BFS runs inside it)
-	md := drv.Pick(c, 6, 8)
+	// (a) manager-level BFS (one execution; the BFS runs inside it, so one confirming replay is a whole search)
+	c.ConfirmTimes = func(scn string) int {
+		if strings.HasPrefix(scn, "mgr/") {
+			return 1
+		}
+		return 0
+	}
+	md := drv.Pick(c, 7, 9)
 	rs, err := pool.RunBatch([]string{fmt.Sprintf("mgr/bfs%d", md)}, true)
 	if err != nil {
 		c.Cap("harness error: " + err.Error())
@@ -792,6 +830,9 @@ outer:
 		c.FoldExec(&rs[0])
 		for _, o := range rs[0].Obs {
 			var d, st, tr int
+			if strings.HasPrefix(o, "manager BFS capped") {
+				c.Cap(o)
+			}
 			if n, _ := fmt.Sscanf(o, "manager BFS depth=%d states=%d transitions=%d", &d, &st, &tr); n == 3 {
 				c.States(int64(st), int64(tr))
 				c.Note("manager_bfs", map[string]any{"depth": d, "distinct_states": st, "transitions": tr})
